@@ -46,5 +46,11 @@ meta = {
     "detected_by": [k for k, v in results.items() if v["exit"] == 1 and v["violation_lines"]],
     "how_run": "git -C /repo apply patch.diff; ./check <id> quick; git -C /repo checkout -- .",
 }
+if os.path.exists(dst + "/meta.json"):
+    old = json.load(open(dst + "/meta.json"))
+    hist = old.get("earlier_runs", [])
+    hist.append({"harness_commit": old.get("harness_commit"), "checks_run_against_it": old["checks_run_against_it"], "detected_by": old["detected_by"]})
+    meta["earlier_runs"] = hist
+meta["harness_commit"] = subprocess.run(["git", "-C", "/verif", "rev-parse", "--short", "HEAD"], capture_output=True, text=True).stdout.strip()
 json.dump(meta, open(dst + "/meta.json", "w"), indent=1)
 print("filed", dst, "detected_by", meta["detected_by"])
